@@ -120,6 +120,8 @@ def _attack(col, ctx, np, shard, only):
             else:
                 ks = RD.key_schedule([int(b) for b in key]); true = np.array(ks[0] if which == 'first' else ks[15])
             words = list(range(nwords))
+            if ki == 1 and att in ('cpa', 'anova', 'dpa'):
+                words = [0, 2, 1, 3, nwords - 1, nwords - 3, nwords - 2]          # a non-monotonic word selection (runs of consecutive indices out of order)
             if att == 'tpldpa': words = [0, nwords - 1] if tier == 'quick' else [0, 3, nwords - 1]
             elif att in ('anova', 'nicv', 'snr', 'mia') and tier == 'quick' and cipher == 'des': words = list(range(nwords))
             sf_all = SF()
